@@ -737,6 +737,9 @@ func runCore(f lib.Flags, res *lib.Result) {
 			ln = 3 + i/8 // small cases first
 		}
 		cs := genCoreSeq(r, ln)
+		if !begin(mon, "core", fmt.Sprint(i), cs) {
+			continue
+		}
 		runCoreSeq(cs, tie, mon, drv)
 		if tie.Error != "" {
 			break
